@@ -1013,10 +1013,14 @@ static json gen_as() {
   return json{{"type", type}, {"lit", lit}};
 }
 
+// the harness only builds and compares small trees; keep the footprint of the 16 parallel processes small
+extern "C" const char *__asan_default_options() { return "quarantine_size_mb=32"; }
+
 int main(int argc, char **argv) {
   std::vector<Sub> subs;
-  subs.push_back(Sub{"options", gen_options, run_options, 0.45, 100, nullptr});
-  subs.push_back(Sub{"xmlroundtrip", gen_xml, run_xml, 0.3, 100, nullptr});
+  // cheap subs first: when a starved machine exhausts the time budget, the expensive one is cut short, not skipped ones
   subs.push_back(Sub{"astype", gen_as, run_as, 0.25, 100, nullptr});
+  subs.push_back(Sub{"xmlroundtrip", gen_xml, run_xml, 0.3, 100, nullptr});
+  subs.push_back(Sub{"options", gen_options, run_options, 0.45, 100, nullptr});
   return harness_main(argc, argv, "C11", subs);
 }
